@@ -9,7 +9,11 @@ a *variation model* that, evaluated at a master's location, returns that master'
 * `DeltaModel`: fontTools' construction — support scalars per master (in model order), deltas by the triangular
   recursion of `VariationModel.getDeltas`, interpolation `Σ scalar_j(loc) · delta_j` — for which the law is PROVED
   (Props/C10.lean) from the two facts `S_i(loc_i) = 1` and `S_j(loc_i) = 0` for `j > i`.
-* the one-axis instance: `region1` mirrors `_locationsToRegions` + `_computeMasterSupports` and `scalar1` mirrors
+* the n-axis model (second half of this file): `VariationModel.__init__` = `variationModel` (normalisation, the master order
+  `getMasterLocationsSortKeyFunc` = `sortN`, `_locationsToRegions` + `_computeMasterSupports` = `regionOf`/`supportsN` with the
+  box-narrowing loop and its bestAxes ratio rule, `supportScalar`, `getDeltas`, `interpolateFromDeltas`); the two support facts
+  and hence the law are proved for any number of axes and masters in Props/C10Var.lean.
+* the one-axis instance (proved to be the one-axis case of the n-axis definitions): `region1` mirrors `_locationsToRegions` + `_computeMasterSupports` and `scalar1` mirrors
   `supportScalar` (ot=True, no extrapolation) for a single axis with range (-1, 1); the two facts are proved for any
   number of masters in any order that starts with the default.
 -/
